@@ -265,6 +265,9 @@ def _genuine(stream, delivered_views):
     return None
 
 
+_LEAF_TAGS = {f"{p}{k}" for p in ("one", "def") for k in ("Text", "Number", "Switch", "Light", "BLOB")}
+
+
 def _view_matches_xml(v, el, top=True):
     """The library parser ignores unknown attributes, a vector's own text and whatever is nested inside a leaf
     element; so a delivered message is the parse of an element iff tag, every attribute it kept, its text (when it
@@ -280,9 +283,10 @@ def _view_matches_xml(v, el, top=True):
         if t != text:
             return False
     sub = list(el)
-    if not top and not kids:
+    if (not top or tag in _LEAF_TAGS) and not kids:
         # a leaf (one*/def* element): the parser keeps its attributes and leading text and ignores anything nested inside
-        # it, exactly as it ignores unknown attributes; the delivered leaf still is the parse of this element
+        # it, exactly as it ignores unknown attributes; the delivered leaf still is the parse of this element (the library
+        # accepts oneLight also as a message of its own: the same holds for it at the top level)
         return True
     if len(sub) != len(kids):
         return False
